@@ -331,7 +331,7 @@ def run_property(pid: str, tier: str, seed: int, repo: str, only_clause: str | N
     distinct = set()
     distinct_nontrivial = set()
     evaluations = 0
-    states = transitions = 0
+    states = transitions = histories = 0
     samples = []
     notes = []
     for c in clauses:
@@ -347,6 +347,7 @@ def run_property(pid: str, tier: str, seed: int, repo: str, only_clause: str | N
             info = res.get("info") or {}
             states += int(info.get("states", 0))
             transitions += int(info.get("transitions", info.get("calls", 1)))
+            histories += int(info.get("histories", 0))
             if key not in seen_local:
                 seen_local.add(key)
                 distinct.add(key)
@@ -447,6 +448,7 @@ def run_property(pid: str, tier: str, seed: int, repo: str, only_clause: str | N
             "states": len(distinct) + states,
             "transitions": transitions,
             "traces_validated_against_impl": probed,
+            "histories_explored": histories,
             "samples": samples[:60],
             "clauses": clause_tables,
             "known_finding_hits": kf_hits,
